@@ -654,6 +654,7 @@ CLS_ROUND = 'rounds-half-even-instead-of-truncating'
 CLS_PHI = 'assigns-phis-of-untaken-successor'
 CLS_ROT = 'rol-ror-emitted-as-invalid-python'
 CLS_NAN = 'nan-constant-emitted-as-undefined-name'
+CLS_FREE = 'free-pops-statically-summed-alloca-size'
 
 
 def float_pool(rng, thorough):
@@ -904,8 +905,7 @@ def search(ctx, shared=None):
     else:
         ns, idx, _, progs, ptext, pv = shared
     n_eval = 0
-    replay_hint = ('PYTHONPATH=$VERIF_REPO:/verif/tools python -c "from props import c24; c24.replay_cli()" '
-                   '(or ./check C24 --replay <this file>)')
+    replay_hint = 'VERIF_REPO=<tree> ./check C24 --replay <this file>  (rebuilds the IR function and executes the emitted Python)'
 
     # binops / unops: boundary pools for all widths, 8-bit exhaustive (strided in the quick tier)
     for (tn, bits, sg) in INT_TYPES:
@@ -1019,6 +1019,32 @@ def search(ctx, shared=None):
     if not (isinstance(got, OkV) and isinstance(got.v, float) and math.isnan(got.v)):
         ctx.violation({'fn': 'gen_const', 'class': CLS_NAN, 'key': CLS_NAN, 'args': ['nan'],
                        'actual': 'exception (NameError: nan)' if not isinstance(got, OkV) else repr(got.v)})
+
+    # alloca/free bookkeeping (not modelled in Coq): a return on a path that skipped a textually earlier alloc
+    mm = ir.Module('c24free')
+    f, blk, (n,) = new_function(ir, mm, 'f', ir.i32, [('n', ir.i32)])
+    ba, bb = ir.Block('a'), ir.Block('b')
+    f.add_block(ba)
+    f.add_block(bb)
+    zero = ir.Const(0, 'zero', ir.i32)
+    blk.add_instruction(zero)
+    blk.add_instruction(ir.CJump(n, '>', zero, ba, bb))
+    al = ir.Alloc('al', 8, 8)
+    ba.add_instruction(al)
+    ba.add_instruction(ir.Jump(bb))
+    two = ir.Const(2, 'two', ir.i32)
+    bb.add_instruction(two)
+    bb.add_instruction(ir.Return(two))
+    fns = load_module(emit_module(mm))
+    for arg, exp in ((1, 2), (0, 2), (5, 2)):
+        n_eval += 1
+        got = outcome(fns['f'], arg)
+        depth = len(fns['rt'].stack)
+        if not (isinstance(got, OkV) and got.v == exp and depth == 0):
+            ctx.violation({'fn': 'reset_stack', 'class': CLS_FREE, 'key': CLS_FREE, 'args': [arg], 'expected': exp,
+                           'actual': got.v if isinstance(got, OkV) else 'exception (IndexError: pop from empty bytearray)',
+                           'stack_depth_after': depth})
+            break
 
     # memory: store/load through gen_store/gen_load of every integer type (end to end), and reinterpretation
     mns = load_module(emit_module(build_mem_module(ir)))
